@@ -899,6 +899,10 @@ private:
     if (entBody[1] == 'x' || entBody[1] == 'X')
     {
       // hex
+      if (entBody.size() < 3)
+      {
+        return false; // "&#x;" has no digits
+      }
       for (std::size_t i = 2; i < entBody.size(); ++i)
       {
         char c = entBody[i];
@@ -920,6 +924,10 @@ private:
           return false;
         }
         code = (code << 4) | v;
+        if (code > 0x10FFFFu)
+        {
+          return false; // beyond Unicode; also keeps the accumulator from wrapping
+        }
       }
     }
     else
@@ -933,6 +941,10 @@ private:
           return false;
         }
         code = code * 10u + static_cast<uint32_t>(c - '0');
+        if (code > 0x10FFFFu)
+        {
+          return false; // beyond Unicode; also keeps the accumulator from wrapping
+        }
       }
     }
     if (!encodeUtf8(code, out))
